@@ -24,6 +24,7 @@ const (
 	ExitBudget = 3 // a guarded library call exceeded its CPU budget (record written)
 	ExitMem    = 4 // resident memory above the limit during a guarded call
 	ExitStop   = 5 // too many violations, stopped early (records written)
+	ExitUnit   = 6 // a whole unit exceeded the harness CPU / memory limit (record written)
 )
 
 // Rec is one journal record (JSON line).
@@ -90,6 +91,8 @@ type Ctx struct {
 	budgetNs  int64
 	budgetCur atomic.Int64 // budget of the current unit (ns)
 	maxCharge atomic.Int64 // largest CPU time charged to one guarded call so far (ns)
+	unitStart atomic.Int64 // process CPU ns when the current unit began (0: no unit running)
+	unitLimit int64        // CPU ns a whole unit (library + harness) may use before it is abandoned as inconclusive
 }
 
 type stopSentinel struct{}
@@ -173,6 +176,12 @@ func RunChild(o ChildOpts) {
 		sampleBy: map[string]int{}, violKeys: map[string]int{}, streams: map[string]*bufio.Writer{}}
 	c.budgetNs = int64(o.BudgetS * 1e9)
 	c.budgetCur.Store(c.budgetNs)
+	c.unitLimit = int64(2400 * 1e9)
+	if v := os.Getenv("VERIF_UNIT_BUDGET_S"); v != "" {
+		if f, err := strconv.ParseFloat(v, 64); err == nil && f > 0 {
+			c.unitLimit = int64(f * 1e9)
+		}
+	}
 	c.callKey.Store("")
 	go c.watchdog()
 	func() {
@@ -260,6 +269,20 @@ func (c *Ctx) watchdog() {
 			c.flush()
 			os.Exit(ExitBudget)
 		}
+		// safety net for the harness itself: a unit whose oracle work runs away (CPU or memory) is abandoned and the
+		// run becomes INCONCLUSIVE; it never turns into a verdict about the library.
+		if us := c.unitStart.Load(); us != 0 && tick%20 == 0 {
+			over := now-us > c.unitLimit
+			var rss uint64
+			if !over {
+				rss = rssBytes()
+			}
+			if over || rss > 12<<30 {
+				c.write(Rec{T: "unit_budget", Unit: c.curUnit, CPU: float64(now-us) / 1e9, V: int64(rss), Msg: "unit abandoned: harness CPU or memory limit exceeded"})
+				c.flush()
+				os.Exit(ExitUnit)
+			}
+		}
 		if tick%4 == 0 && c.active.Load() {
 			if rss := rssBytes(); rss > c.o.MemLimit {
 				key := c.curKey()
@@ -309,6 +332,8 @@ func (c *Ctx) Unit(name string, f func()) {
 	c.write(Rec{T: "begin", Unit: name, Seq: seq})
 	c.flush()
 	t0 := time.Now()
+	c.unitStart.Store(processCPU() | 1)
+	defer c.unitStart.Store(0)
 	ok := func() (ok bool) {
 		defer func() {
 			if r := recover(); r != nil {
